@@ -60,7 +60,7 @@ def derived_tables(kind, params, N, nnew):
     full, masks = tt.space(nnew)
     D = []
     valid = full
-    if kind in ("xor", "or", "maj", "eq", "neq", "one", "exact", "atleast", "atmost", "anybut"):
+    if kind in ("xor", "or", "maj", "eq", "neq", "one", "exact", "atleast", "atmost", "anybut", "lin>", "lin<", "lin>=", "lin<=", "lin==", "lin!="):
         k = params[0]
         for v in range(N):
             block = [v * k + i for i in range(1, k + 1)]
@@ -86,7 +86,7 @@ def derived_tables(kind, params, N, nnew):
             elif kind == "one":
                 d = threshold(nnew, block, "==", 1)
             else:
-                op = {"exact": "==", "atleast": ">=", "atmost": "<=", "anybut": "!="}[kind]
+                op = {"exact": "==", "atleast": ">=", "atmost": "<=", "anybut": "!="}.get(kind) or kind[3:]
                 d = threshold(nnew, block, op, params[1])
             D.append(d)
     elif kind == "ite":
@@ -136,7 +136,7 @@ def expected_models(clauses, kind, params, N, nnew):
 
 
 def new_numvar(kind, params, N):
-    if kind in ("xor", "or", "maj", "eq", "neq", "one", "exact", "atleast", "atmost", "anybut"):
+    if kind in ("xor", "or", "maj", "eq", "neq", "one", "exact", "atleast", "atmost", "anybut", "lin>", "lin<", "lin>=", "lin<=", "lin==", "lin!="):
         return N * params[0]
     if kind == "ite":
         return 3 * N
@@ -169,6 +169,10 @@ def apply_library(kind, params, F):
         return g.AtMostKSubstitution(F, params[0], params[1])
     if kind == "anybut":
         return g.AnythingButKSubstitution(F, params[0], params[1])
+    if kind.startswith("lin"):
+        # the generic entry point the four named substitutions are written on, with any of its six relations
+        from cnfgen.transformations.substitutions import LinearSubstitution
+        return LinearSubstitution(F, params[0], kind[3:], params[1])
     if kind == "ite":
         return g.IfThenElseSubstitution(F)
     if kind == "lift":
@@ -248,7 +252,7 @@ def transformations_for(N, cap, r=None, tier="quick"):
             # wide gadgets (9-11 inputs) only where the formula has a single variable: 2^(k-1) clauses per literal
             if N * k <= cap and (k <= 4 or N == 1):
                 out.append((kind, [k]))
-    for kind in ("exact", "atleast", "atmost", "anybut"):
+    for kind in ("exact", "atleast", "atmost", "anybut", "lin>", "lin<", "lin>=", "lin<=", "lin==", "lin!="):
         for n_ in range(1, 5):
             for K in range(-1, n_ + 2):
                 if N * n_ <= cap:
@@ -330,7 +334,7 @@ def too_costly(kind, params, clauses):
     """Gadgets with five or more inputs are applied to unit clauses only (2^(k-1) clauses per literal otherwise multiply)."""
     if not any(len(c) > 1 for c in clauses):
         return False
-    if kind in ("xor", "or", "maj", "eq", "neq", "one", "exact", "atleast", "atmost", "anybut", "lift"):
+    if kind in ("xor", "or", "maj", "eq", "neq", "one", "exact", "atleast", "atmost", "anybut", "lift", "lin>", "lin<", "lin>=", "lin<=", "lin==", "lin!="):
         return bool(params) and params[0] > 4
     if kind in ("xorcomp", "majcomp"):
         return max([len(ns) for ns in params[0]] or [0]) > 4
@@ -372,7 +376,7 @@ def case_small(ctx, lo, hi):
     cnfs = small_cnfs()[lo:hi]
     for (N, clauses) in cnfs:
         for kind, params in transformations_for(N, cap):
-            if ctx.tier == "quick" and kind in ("exact", "atleast", "atmost", "anybut") and params[0] == 4:
+            if ctx.tier == "quick" and (kind in ("exact", "atleast", "atmost", "anybut") or kind.startswith("lin")) and params[0] == 4:
                 continue
             run_one(ctx, N, clauses, kind, params)
 
@@ -432,7 +436,7 @@ def case_cli(ctx, rseed, count):
                     f.write(" ".join(map(str, c + [0])) + "\n")
             ts = [t for t in transformations_for(N, cap)
                   if not (t[0] in ("exact", "atleast", "atmost", "anybut") and t[1][1] < 1)]   # the command line wants K >= 1
-            ts = [t for t in ts if not too_costly(t[0], t[1], cls)]
+            ts = [t for t in ts if not too_costly(t[0], t[1], cls) and not t[0].startswith("lin")]   # lin*: library entry point only
             for kind, params in r.sample(ts, min(len(ts), 5)):
                 argv = ["cnfgen", "-q", "dimacs", path, "-T", kind] + [str(p) for p in params]
                 label = " ".join(argv[:3] + ["<%d vars %r>" % (N, cls)] + argv[4:])
@@ -533,7 +537,7 @@ def workload(tier, seed):
 # ------------------------------------------------------------------ beyond the cap: sampled assignments, larger arities
 def gadget_value(kind, params, N, a, v):
     """value of original variable v (0-based) under assignment a (set of true new variables)"""
-    if kind in ("xor", "or", "maj", "eq", "neq", "one", "exact", "atleast", "atmost", "anybut"):
+    if kind in ("xor", "or", "maj", "eq", "neq", "one", "exact", "atleast", "atmost", "anybut", "lin>", "lin<", "lin>=", "lin<=", "lin==", "lin!="):
         k = params[0]
         cnt = sum(1 for i in range(1, k + 1) if v * k + i in a)
         if kind == "xor":
@@ -549,7 +553,8 @@ def gadget_value(kind, params, N, a, v):
         if kind == "one":
             return cnt == 1
         K = params[1]
-        return {"exact": cnt == K, "atleast": cnt >= K, "atmost": cnt <= K, "anybut": cnt != K}[kind]
+        return {"exact": cnt == K, "atleast": cnt >= K, "atmost": cnt <= K, "anybut": cnt != K, "lin>": cnt > K, "lin<": cnt < K,
+                "lin>=": cnt >= K, "lin<=": cnt <= K, "lin==": cnt == K, "lin!=": cnt != K}[kind]
     if kind == "ite":
         return (N + v + 1 in a) if (v + 1 in a) else (2 * N + v + 1 in a)
     if kind == "lift":
